@@ -73,8 +73,12 @@ func c20Bodies() []c20Body {
 			return fmt.Sprint(rows, err)
 		}},
 		{"SelectRowid+Columns", func(e *Env, onRow func()) string {
-			r, err := e.H.SelectRowid("t1", 20, "b", "c")
+			// the row with a blob AND an overflowing text: a returned Row belongs to the caller, so it is looked at
+			// only after a scheduling point (and after another call on the same handle)
+			r, err := e.H.SelectRowid("t1", c20BlobRowid, "b", "c", "e")
+			onRow()
 			cols, err2 := e.H.Columns("t2")
+			onRow()
 			return fmt.Sprint(RowS(CopyRowOrNil(r)), err, cols, err2)
 		}},
 		{"PKSelect(t2)+Schema", func(e *Env, onRow func()) string {
@@ -149,8 +153,11 @@ func T2Alt(n int) dbgen.Table {
 	return t
 }
 
+// c20BlobRowid: the rowid of the T1 row (index 10 of 12) that holds a blob and an overflowing text
+var c20BlobRowid = rowidSet(12, 2)[10]
+
 func c20Images() ([]byte, []byte) {
-	a := &dbgen.Spec{PageSize: 512, Tables: []dbgen.Table{T1(rowidSet(6, 2), 600), T2(5, 0)}}
+	a := &dbgen.Spec{PageSize: 512, Tables: []dbgen.Table{T1(rowidSet(12, 2), 600), T2(5, 0)}}
 	b := &dbgen.Spec{PageSize: 1024, Tables: []dbgen.Table{T1Alt(9), T2Alt(7)}}
 	for _, sp := range []*dbgen.Spec{a, b} {
 		if img, err := dbgen.Build(sp); err != nil {
